@@ -151,6 +151,30 @@ def injector_cases():
     add('pivot', 'SELECT i, count(*) FROM #t GROUP BY i, s PIVOT BY 3, 1', R)
     add('pivot', 'SELECT i, s, j FROM #t PIVOT BY 1, 2', R)
     add('pivot', 'SELECT i, s FROM #t PIVOT BY i, s', R)
+    # reference forms: every way of designating a target (position, column name, alias) in every combination
+    for sel, refs in (('SELECT i, s, count(*) AS n', {0: ['1', 'i'], 1: ['2', 's'], 2: ['3', 'n']}),
+                      ('SELECT i AS a, s AS b, count(*) AS n', {0: ['1', 'a'], 1: ['2', 'b'], 2: ['3', 'n']}),
+                      ('SELECT s AS b, sum(j) AS n, i AS a', {2: ['3', 'a'], 0: ['1', 'b'], 1: ['2', 'n']})):
+        keys = [t for t in refs if refs[t][1] != 'n']
+        agg = next(t for t in refs if refs[t][1] == 'n')
+        gb = f'GROUP BY {refs[keys[0]][0]}, {refs[keys[1]][0]}'
+        for t1 in refs:
+            for t2 in refs:
+                for r1 in refs[t1]:
+                    for r2 in refs[t2]:
+                        # PIVOT BY: two different targets, the second one grouped (the property asks no more of the first)
+                        ok = t1 != t2 and t2 != agg
+                        add('pivot-reference-forms', f'{sel} FROM #t {gb} PIVOT BY {r1}, {r2}', A if ok else R)
+        for k1 in refs[keys[0]]:
+            for k2 in refs[keys[1]]:
+                add('group-reference-forms', f'{sel} FROM #t GROUP BY {k1}, {k2}', A)
+                add('group-reference-forms', f'{sel} FROM #t GROUP BY {k2}, {k1}', A)
+                add('group-reference-forms', f'{sel} FROM #t GROUP BY {k1}, {k2}, {k1}', A)
+                for ra in refs[agg]:
+                    add('group-reference-forms', f'{sel} FROM #t GROUP BY {k1}, {k2}, {ra}', R)      # an aggregate as a grouping key
+                    add('group-reference-forms', f'{sel} FROM #t GROUP BY {ra}, {k1}, {k2}', R)
+                    add('order-reference-forms', f'{sel} FROM #t GROUP BY {k1}, {k2} ORDER BY {ra}, {k2} DESC, {k1}', A)
+            add('group-reference-forms', f'{sel} FROM #t GROUP BY {k1}', R)                               # the other key target is not covered
     # coalesce
     add('coalesce', 'SELECT coalesce(i, j) FROM #t', A)
     add('coalesce', 'SELECT coalesce(i, 1) FROM #t', A)
